@@ -291,8 +291,14 @@ func genPrior(r *Rng, d *hdesc, adversarial bool) []aop {
 			out = append(out, aop{0, 26, r.Bytes(r.Intn(5))}) // too short to carry a vendor id and a payload
 		case d.vendor && r.Intn(2) == 0:
 			vid := d.vendorID
-			if r.Intn(4) == 0 {
+			switch r.Intn(8) {
+			case 0, 1:
 				vid = r.Pick(9, 311, 14122, 14988, 14823)
+			case 2:
+				// a different vendor whose number agrees with this one in its low bits
+				vid = d.vendorID | (1+r.Intn(255))<<24
+			case 3:
+				vid = d.vendorID ^ 1<<uint(r.Intn(24))
 			}
 			payload := []byte{}
 			ns := r.Intn(4)
